@@ -784,7 +784,7 @@ static RuleT parseRuleTok(const string& r)
 }
 
 // all read-only views of one automaton through the public wrappers
-static string viewsTA(const TA& a, const string& tag)
+static string viewsTA(const TA& a, const string& tag, bool withTe = true)
 {
 	std::ostringstream os;
 	vector<string> acc;
@@ -797,7 +797,10 @@ static string viewsTA(const TA& a, const string& tag)
 	for (size_t q : a.GetUsedStates()) used.insert(q);
 	os << " used" << tag << "=";
 	{ bool f = true; for (size_t q : used) { if (!f) os << ","; os << q; f = false; } if (f) os << "-"; }
-	os << " te" << tag << "=" << (const_cast<TA&>(a).AreTransitionsEmpty() ? 1 : 0);
+	// AreTransitionsEmpty() is non-const and UNSHARES the rule table (uniqueClusterMap): histories that are about sharing
+	// (C11) switch it off with the leading step `opt!note` and call it only through explicit `te!i` steps
+	if (withTe) os << " te" << tag << "=" << (const_cast<TA&>(a).AreTransitionsEmpty() ? 1 : 0);
+	else os << " te" << tag << "=-";
 	// indexing by every used state and by two states that may not occur
 	std::set<size_t> probe(used);
 	probe.insert(0); probe.insert(97);
@@ -824,13 +827,16 @@ static string opTaHist(const vector<string>& steps)
 {
 	vector<std::unique_ptr<TA>> pool;
 	std::ostringstream out;
+	bool withTe = true;
 	for (size_t k = 0; k < steps.size(); ++k) {
 		vector<string> f = split(steps[k], '!');
 		const string& op = f.at(0);
 		auto ix = [&](size_t i) -> size_t { size_t x = toN(f.at(i)); if (x >= pool.size() || !pool[x]) throw std::invalid_argument("dead entry"); return x; };
 		auto ent = [&](size_t i) -> TA& { return *pool[ix(i)]; };
 		size_t touched = static_cast<size_t>(-1);
-		if (op == "new") { pool.emplace_back(new TA()); touched = pool.size() - 1; }
+		if (op == "opt") { if (f.at(1) == "note") withTe = false; }
+		else if (op == "te") { out << " tev" << k << "=" << (ent(1).AreTransitionsEmpty() ? 1 : 0); }
+		else if (op == "new") { pool.emplace_back(new TA()); touched = pool.size() - 1; }
 		else if (op == "def") { pool.emplace_back(new TA(buildTA(parseTA(f.at(1))))); touched = pool.size() - 1; }
 		else if (op == "copy") { pool.emplace_back(new TA(ent(1))); touched = pool.size() - 1; }
 		else if (op == "copynt") { pool.emplace_back(new TA(ent(1), false, true)); touched = pool.size() - 1; }
@@ -881,7 +887,7 @@ static string opTaHist(const vector<string>& steps)
 		else throw std::invalid_argument("unknown step " + op);
 		out << " S" << k;
 		for (size_t i = 0; i < pool.size(); ++i) if (pool[i]) out << " " << k << "." << i << "=" << dumpTA(*pool[i]);
-		if (touched != static_cast<size_t>(-1) && pool[touched]) out << " t" << k << "=" << touched << viewsTA(*pool[touched], std::to_string(k));
+		if (touched != static_cast<size_t>(-1) && pool[touched]) out << " t" << k << "=" << touched << viewsTA(*pool[touched], std::to_string(k), withTe);
 	}
 	return out.str().substr(1);
 }
